@@ -105,8 +105,11 @@ def gen_c01(r, n):
 def gen_c05(r, n):
     cases = []
     for i in range(n):
-        k = ["steplimit", "update"][i % 2]
-        if k == "steplimit":
+        k = ["steplimit", "update", "steplimit", "update", "ifail"][i % 5]
+        if k == "ifail":
+            cases.append((k, dict(cutmode=1, gcut=2.0 ** -4, ecut=1.0, pcut=0.5, pid=r.choice([0, 0, 1, 2]),
+                                  E=10 ** r.uniform(-1, 2), dep0=0.0, act=3, iE=0.0, idep=0.0, secs=[])))
+        elif k == "steplimit":
             s0 = r.choice([math.inf, 10 ** r.uniform(-6, 3), 0.0])
             seq = []
             cur = s0
@@ -147,7 +150,7 @@ def harness_line(k, c):
         return "%s %s %d %s %d %d %s %d" % (k, fx(c["lowest"]), c["pid"], fx(c["E"]), c["vol"], c["stepmode"], fx(c["frac"]), c["pclass"])
     if k == "eloss":
         return "eloss %d %s %s %s %d %s %d" % (c["pid"], fx(c["E"]), fx(c["Eset"]), fx(c["dep0"]), int(c["applicable"]), fx(c["value"]), c["pclass"])
-    if k == "interact":
+    if k in ("interact", "ifail"):
         return "interact %d %s %s %s %d %s %s %d %s %s %d %s" % (
             c["cutmode"], fx(c["gcut"]), fx(c["ecut"]), fx(c["pcut"]), c["pid"], fx(c["E"]), fx(c["dep0"]),
             c["act"], fx(c["iE"]), fx(c["idep"]), len(c["secs"]), " ".join("%d %s" % (p, fx(e)) for p, e in c["secs"]))
@@ -200,6 +203,8 @@ def model_expr(k, c, o):
     if k == "tcut":
         m, anti = P1_PART[c["pid"]]
         return "run_tcut %s %s %s %s" % (hexf(c["E"]), hexf(m), b(anti), hexf(c["dep0"]))
+    if k == "ifail":
+        return "run_ifail %s %s" % (b(VARIANT["fixed"]), hexf(o[5]))
     if k == "steplimit":
         seq = "[" + "; ".join("(%s, %s)" % (hexf(s), zlit(a)) for s, a in c["seq"]) + "]"
         return "run_steplimit %s %s %s" % (hexf(c["s0"]), zlit(c["c0"]), seq)
@@ -225,6 +230,8 @@ def impl_view(k, c, o):
         return [E1, dep, st, failed, secs]
     if k == "tcut":
         return list(o[0:3])
+    if k == "ifail":
+        return [o[4], o[3]]
     if k == "steplimit":
         n = len(c["seq"])
         return [[bool(o[3 * i]), o[3 * i + 1], o[3 * i + 2]] for i in range(n)]
@@ -302,6 +309,23 @@ def oracle(k, c, o):
     return None
 
 
+VARIANT = {"fixed": False}
+
+
+def detect_variant(ctx, todo):
+    """which allocation-failure branch does the tree implement? decided by the
+    real InteractionApplier on the generated failure cases"""
+    kept = [o for k, c, o in todo if k == "ifail" and o[5] > 0]
+    if not kept:
+        return
+    nfixed = sum(1 for o in kept if o[4] == o[5])
+    nold = sum(1 for o in kept if o[4] == 0.0)
+    VARIANT["fixed"] = nfixed > nold
+    ctx.coverage["failure_branch_variant"] = ("repaired: post_step_action(failure), step length kept" if VARIANT["fixed"]
+                                              else "old: step_limit({0, failure}) (finding F5)")
+    ctx.coverage["failure_branch_cases"] = dict(kept=len(kept), step_kept=nfixed, step_zeroed=nold)
+
+
 def run_cases(ctx, exe, cases, pre, tag):
     """returns True if a concrete failing input was reported"""
     inp = "".join(harness_line(k, c) + "\n" for k, c in cases)
@@ -318,6 +342,7 @@ def run_cases(ctx, exe, cases, pre, tag):
             ctx.case((k, c), nontrivial=False)
             continue
         todo.append((k, c, o))
+    detect_variant(ctx, todo)
     exprs = [model_expr(k, c, o) for k, c, o in todo]
     mvals = ctx.coq_eval(tag, pre, exprs, chunk=max(100, len(exprs) // 6 + 1)) if exprs else []
     found = False
